@@ -120,6 +120,15 @@ func (r *vfC02PskRun) run() {
 			if l1(si, led.OnWrite(K, n, err)) {
 				return
 			}
+			if op.B("dead") {
+				// the connection failed closed after an earlier failed write: this Write must fail too.  (If it
+				// reports success, its bytes are accepted like any others and the ledger judges what arrives.)
+				r.res.Case("write/after-failure")
+				if err == nil {
+					r.mismatch(si, "L2:psk-write-after-failure", fmt.Sprintf("Write(%d) = (%d, nil) after an earlier write had failed", K, n), "error", "nil")
+				}
+				break
+			}
 			if refused {
 				// nothing was accepted and nothing is on the wire; the caller goes on writing, and from here on every
 				// byte of a write that reports success must arrive unmodified, once, in order
